@@ -1,6 +1,8 @@
 (* Model of /repo/packet/adaptationfield/adaptationfield.go : the function-style accessors on a
-   *packet.Packet (a *[188]byte).  None of them checks that the packet has an adaptation field (except
-   EncoderBoundaryPoint); offsets are computed as int and converted to uint8 in TransportPrivateData. *)
+   *packet.Packet (a *[188]byte), as in /root/work/repo-fixed.  None of them checks that the packet has an
+   adaptation field (except EncoderBoundaryPoint).  TransportPrivateData is the guarded version of
+   c05-guards.patch (int arithmetic, ErrInvalidPacketLength when the data would run past the packet); the
+   pinned tree computed `pkt[uint8(offset) : uint8(offset)+dataLength]` with uint8 wrap-around and panicked. *)
 From Gots Require Import Base.Prelude.
 Module AFfn.
 Definition Length (p : bytes) : N := nthN p 4.
@@ -29,7 +31,8 @@ Definition TransportPrivateData (p : bytes) : Res bytes :=
   let offset := tpd_offset p in
   let dataLength := nthN p offset in             (* offset <= 19 *)
   let offset := offset + 1 in
-  slice p (w8 offset) (w8 (w8 offset + dataLength)).   (* uint8(offset)+dataLength wraps at 256 *)
+  if 188 <? offset + dataLength then Err E.InvalidPacketLength else
+  slice p offset (offset + dataLength).
 (* packet.ContainsAdaptationField(pkt) && Length(pkt) > 0 && HasTransportPrivateData(pkt) *)
 Definition EncoderBoundaryPoint (p : bytes) : Res bytes :=
   if bit (nthN p 3) 32 && (0 <? Length p) && HasTransportPrivateData p
